@@ -7,6 +7,8 @@ THEOREMS = ["C04_clean_names_confined", "C04_dot_segments_refused", "C04_refused
 TARGETS = ["Properties/C04.vo", "Check/PathCheck.vo"]
 CANARY = b"CANARY-OUTSIDE-ROOT-51c2"
 VICTIM = b"VICTIM-OTHER-BUCKET-88ab"
+import hashlib as _hl
+CANARY_MD5, VICTIM_MD5 = _hl.md5(CANARY).hexdigest().encode(), _hl.md5(VICTIM).hexdigest().encode()
 
 SPELLINGS = [
     ("raw", lambda p: p),
@@ -89,7 +91,7 @@ def run(chk):
                                      c.req(method, "/bk1/" + sp, query=q, body=body, headers=hd, raw_path="/bk1/" + sp),
                                      c.req(method, os.path.normpath("/bk1/" + dec), query=q, body=body, headers=hd, raw_path="/bk1/" + sp)]))
                 reqs.append(("CopyObject source=%s" % sp, "copy-source", sname, tname,
-                             lambda c, sp=sp: [c.req("PUT", "/bk1/copied-" + str(abs(hash(sp)) % 1000), headers={"x-amz-copy-source": "bk1/" + sp})]))
+                             lambda c, sp=sp: [c.req("PUT", "/bk1/copied-s", headers={"x-amz-copy-source": "bk1/" + sp}), c.req("GET", "/bk1/copied-s"), c.req("DELETE", "/bk1/copied-s")]))
                 reqs.append(("CopyObject dest key=%s" % sp, "key", sname, tname,
                              lambda c, sp=sp, dec=dec: [c.req("PUT", "/bk1/" + dec, headers={"x-amz-copy-source": "bk1/obj"}, raw_path="/bk1/" + sp)]))
                 reqs.append(("DeleteObjects key=%s" % sp, "batch-key", sname, tname,
@@ -106,7 +108,10 @@ def run(chk):
             reqs.append(("CompleteMultipartUpload uploadId=%s" % rel, "uploadId", "raw", tname, lambda c, rel=rel: [
                 c.req("POST", "/bk1/mp", query={"uploadId": rel}, body=b"<CompleteMultipartUpload><Part><PartNumber>1</PartNumber><ETag>x</ETag></Part></CompleteMultipartUpload>")]))
             reqs.append(("CopyObject source versionId=%s" % rel, "copy-source-version", "raw", tname,
-                         lambda c, rel=rel: [c.req("PUT", "/bk1/copied-v", headers={"x-amz-copy-source": "bk1/obj?versionId=" + rel})]))
+                         lambda c, rel=rel: [c.req("PUT", "/bk1/copied-v", headers={"x-amz-copy-source": "bk1/obj?versionId=" + rel}), c.req("GET", "/bk1/copied-v"),
+                                             c.req("DELETE", "/bk1/copied-v")]))
+            reqs.append(("UploadPartCopy source versionId=%s" % rel, "copy-source-version", "raw", tname,
+                         lambda c, rel=rel: [c.req("PUT", "/bk1/mp", query={"uploadId": uid, "partNumber": "7"}, headers={"x-amz-copy-source": "bk1/obj?versionId=" + rel})]))
             # a repeated parameter: the value that is validated must be the value that is used (both orders on the wire)
             for first, second in ((rel, uid), (uid, rel)):
                 rq = "uploadId=%s&uploadId=%s" % (s3c.quote_q(first), s3c.quote_q(second))
@@ -123,6 +128,17 @@ def run(chk):
                 reqs.append(("DeleteObjects repeated key, versionId=%s (%s)" % (rel, "second" if order == 0 else "first"), "batch-version-repeated", "raw", tname,
                              lambda c, body=body: [c.req("POST", "/bk1", query={"delete": ""}, body=body.encode())]))
                 reqs.append(("DeleteObject versionId=%s" % rel, "versionId", "raw", tname, lambda c, rel=rel: [c.req("DELETE", "/bk1/obj-b", query={"versionId": rel})]))
+        # version ids are joined below <versioning-dir>/<bucket>/<hash directories>/: every depth of escape, towards the canary outside the
+        # root and towards the other bucket's object, through every request that carries a version id (also inside a copy source)
+        for d in range(1, 10):
+            for tname, tail in (("outside-root-depth", "outside/canary.txt"), ("other-bucket-depth", "root/bk2/victim")):
+                rel = "../" * d + tail
+                for method in ("GET", "HEAD", "DELETE"):
+                    reqs.append(("%s versionId=%s" % (method, rel), "versionId", "raw", tname, lambda c, method=method, rel=rel: [c.req(method, "/bk1/obj", query={"versionId": rel})]))
+                reqs.append(("CopyObject source versionId=%s" % rel, "copy-source-version", "raw", tname,
+                             lambda c, rel=rel: [c.req("PUT", "/bk1/copied-v", headers={"x-amz-copy-source": "bk1/obj?versionId=" + rel}), c.req("GET", "/bk1/copied-v"), c.req("DELETE", "/bk1/copied-v")]))
+                reqs.append(("UploadPartCopy source versionId=%s" % rel, "copy-source-version", "raw", tname,
+                             lambda c, rel=rel: [c.req("PUT", "/bk1/mp", query={"uploadId": uid, "partNumber": "7"}, headers={"x-amz-copy-source": "bk1/obj?versionId=" + rel})]))
         for pfx in ("../", "../../outside/", "a/../../bk2/", "..", "/"):
             reqs.append(("ListObjectsV2 prefix=%s" % pfx, "prefix", "raw", "listing", lambda c, pfx=pfx: [c.req("GET", "/bk1", query={"list-type": "2", "prefix": pfx})]))
             reqs.append(("ListObjects marker=%s" % pfx, "marker", "raw", "listing", lambda c, pfx=pfx: [c.req("GET", "/bk1", query={"marker": pfx})]))
@@ -144,7 +160,8 @@ def run(chk):
                     continue
                 g1 = guarded()
                 ch = e2e.snap_diff(g0, g1)
-                leak = any((CANARY in (r.body or b"")) or (VICTIM in (r.body or b"") and who == "alice") for r in resps)
+                # (a copy answers with the ETag of what it read: the digest of a foreign file in a CopyObjectResult / CopyPartResult is a read as well)
+                leak = any((CANARY in (r.body or b"")) or (CANARY_MD5 in (r.body or b"")) or ((VICTIM in (r.body or b"") or VICTIM_MD5 in (r.body or b"")) and who == "alice") for r in resps)
                 row = {"request": label, "parameter": kind, "spelling": sname, "target": tname, "caller": who, "statuses": [r.status for r in resps],
                        "codes": [r.code for r in resps], "changed_outside": ch, "leaked": leak}
                 rows.append(row)
